@@ -422,6 +422,10 @@ class MathShim:
     def sqrt(self, v):
         if not isinstance(v, Sym):
             return _math.sqrt(v)
+        if getattr(self, 'opaque', False):
+            r = self._opaque('sqrt', v)
+            core.CUR.assume_def(r.t >= 0)
+            return r
         return core._root(v, 2)
 
     def fabs(self, v):
@@ -435,7 +439,24 @@ class MathShim:
     def exp(self, v):
         if not isinstance(v, Sym):
             return _math.exp(v)
+        if getattr(self, 'opaque', False):
+            return self._opaque('exp', v, pos=True)
         raise HarnessError('exp of a symbolic value is not modelled')
+
+    def _opaque(self, name, v, pos=False, unit=False):
+        """an unmodelled function as an opaque function of its argument TERM (same term => same value)"""
+        cache = self.__dict__.setdefault('_op', {})
+        vt = z3.simplify(v.term())
+        key = (name, vt.get_id())
+        if key not in cache:
+            ex = core.CUR
+            r = ex.fresh_real(name)
+            if pos:
+                ex.assume_def(r > 0)
+            if unit:
+                ex.assume_def(z3.And(r >= -1, r <= 1))
+            cache[key] = (Sym(r), v, vt)      # keeps the argument term alive (ids are only unique among live terms)
+        return cache[key][0]
 
     def pow(self, a, b):
         return a ** b
@@ -445,6 +466,8 @@ class MathShim:
         """arg = PiTag(coef) with coef = k * x (k rational constant, x a Sym) -> (k, x)."""
         if not isinstance(arg, PiTag):
             if isinstance(arg, Sym):
+                if getattr(self, 'opaque', False):
+                    return ('opaque', arg)
                 raise HarnessError('trigonometric function of a symbolic value that is not a multiple of pi')
             return None
         c = arg.coef
@@ -458,12 +481,16 @@ class MathShim:
         c = self._split(arg)
         if c is None:
             return _math.sin(float(arg))
+        if isinstance(c, tuple):
+            return self._opaque('sin', c[1], unit=True)
         return self._trig(c, 'sin')
 
     def cos(self, arg):
         c = self._split(arg)
         if c is None:
             return _math.cos(float(arg))
+        if isinstance(c, tuple):
+            return self._opaque('cos', c[1], unit=True)
         return self._trig(c, 'cos')
 
     def _trig(self, c, which):
@@ -538,9 +565,9 @@ class MathShim:
             ex = core.CUR
             v = ex.fresh_real(which)
             ex.assume_def(z3.And(v >= -1, v <= 1))
-            cache[key] = Sym(v)
+            cache[key] = (Sym(v), c)          # the argument term is kept alive: z3 ids are only unique among live terms
             self.trig_log.append(key)
-        return cache[key]
+        return cache[key][0]
 
     def _multiple(self, x, k, c1, s1):
         key = (x.t.get_id(), k)
